@@ -278,9 +278,9 @@ func (x *n10Conn) doText(op *n09Op) n10Reply {
 	var args []string
 	if op.K == "lock" || op.K == "push" {
 		args = []string{strings.ToUpper(op.K), hex.EncodeToString(key[:]), "TIMEOUT", "0", "EXPRIED", strconv.Itoa(op.E | op.EF<<16), "LOCK_ID", hex.EncodeToString(id[:]),
-			"FLAG", strconv.Itoa(op.Flag), "COUNT", strconv.Itoa(op.Cnt), "RCOUNT", strconv.Itoa(op.Rc)}
+			"FLAG", strconv.Itoa(op.Flag), "COUNT", strconv.Itoa(op.Cnt + 1), "RCOUNT", strconv.Itoa(op.Rc + 1)} // text counts are 1-based: COUNT n = Count n-1
 	} else {
-		args = []string{"UNLOCK", hex.EncodeToString(key[:]), "LOCK_ID", hex.EncodeToString(id[:]), "FLAG", strconv.Itoa(op.Flag), "RCOUNT", strconv.Itoa(op.Rc)}
+		args = []string{"UNLOCK", hex.EncodeToString(key[:]), "LOCK_ID", hex.EncodeToString(id[:]), "FLAG", strconv.Itoa(op.Flag), "RCOUNT", strconv.Itoa(op.Rc + 1)}
 	}
 	if _, err := x.c.Write(n10Resp(args...)); err != nil {
 		return n10Reply{None: true}
@@ -409,6 +409,7 @@ func n10RunCase(c *n10Case) (out n10Out) {
 	})
 	defer direct.Close()
 	state := "follower"
+	pushed := false // a forwarded PUSH is acknowledged before the leader has executed it
 	var beforeDirect map[string]*n09KeyState
 	var log []string
 	replies := make([]*n10Reply, len(c.Steps))
@@ -470,6 +471,22 @@ func n10RunCase(c *n10Case) (out n10Out) {
 				return
 			}
 		case st.KV != nil && c.Text:
+			if st.KV[0] == "GET" {
+				// GET is answered by the node itself from its replicated state (a read, nothing is decided): comparable with the
+				// leader's answer only when the follower has caught up - the generator does not put a GET behind a stalled stream
+				if c.Stall {
+					continue
+				}
+				if pushed {
+					_ = conn.do(&n09Op{K: "unlock", Key: 250, Id: 250}) // replies are ordered: the PUSH before it has been executed now
+					pushed = false
+				}
+				target, _ := e.leaderTarget()
+				if why := e.waitCaughtUp(0, target); why != "" {
+					out.info.inconclusive = why
+					return
+				}
+			}
 			rp := conn.doRaw(st.KV)
 			replies[i] = &rp
 			log = append(log, fmt.Sprintf("#%d tcp(%s) %s -> %v", i, state, strings.Join(st.KV, " "), rp))
@@ -489,8 +506,22 @@ func n10RunCase(c *n10Case) (out n10Out) {
 			}
 		case st.Op != nil:
 			var rp n10Reply
+			if !c.Stall && (st.Op.K == "lock" || st.Op.K == "push") && st.Op.Flag&0x08 != 0 && st.Op.T == 0 && n09Known(n10KeyProbable) {
+				// known finding: a non-leader answers concurrent-check requests from its replicated view. With a live stream the
+				// follower is first allowed to catch up, so that its view is the leader's
+				if pushed {
+					_ = conn.do(&n09Op{K: "unlock", Key: 250, Id: 250})
+					pushed = false
+				}
+				target, _ := e.leaderTarget()
+				if why := e.waitCaughtUp(0, target); why != "" {
+					out.info.inconclusive = why
+					return
+				}
+			}
 			if st.Op.K == "push" {
 				out.info.pushes++
+				pushed = true
 			}
 			if st.Wait && !c.Text {
 				rp = conn.doWait(st.Op, func() {
@@ -533,6 +564,12 @@ func n10RunCase(c *n10Case) (out n10Out) {
 			now := n09Canon(fsl, false)
 			out.info.followerChecks++
 			if !reflect.DeepEqual(now, beforeDirect) {
+				// a forwarded PUSH is acknowledged before the leader has executed it: its record may arrive between the two
+				// snapshots. A change that came with the leader's stream leaves the follower equal to the leader.
+				target, _ := e.leaderTarget()
+				if why := e.waitCaughtUp(0, target); why == "" && n09CompareState(n09Canon(e.leader.inst.slock, true), n09Canon(fsl, false)) == "" {
+					continue
+				}
 				fail("C10:non-leader-decides", "step %d: a direct %s on a node in role %s changed its lock state\n  before the call:\n%s  after the call:\n%s", i, st.Op.K, state, n09DescribeState(beforeDirect), n09DescribeState(now))
 				return
 			}
@@ -548,6 +585,10 @@ func n10RunCase(c *n10Case) (out n10Out) {
 		e.slots[0].stall = false
 		e.slots[0].proxy.setStall(false)
 	}
+	if pushed && state == "follower" {
+		_ = conn.do(&n09Op{K: "unlock", Key: 250, Id: 250}) // barrier behind the last PUSH, not compared
+	}
+	leaderAfterF := n09DescribeState(n09Canon(e.leader.inst.slock, false))
 	// convergence afterwards (C09's oracle; its listed findings stay suppressed the same way)
 	if key, viol, inc := e.syncAndCheck(true); inc != "" {
 		out.info.inconclusive = inc
@@ -578,6 +619,9 @@ func n10RunCase(c *n10Case) (out n10Out) {
 			continue
 		}
 		if st.KV != nil {
+			if st.KV[0] == "GET" && c.Stall {
+				continue
+			}
 			lr := lconn.doRaw(st.KV)
 			llog = append(llog, fmt.Sprintf("#%d %s -> %v", i, strings.Join(st.KV, " "), lr))
 			if fr := *replies[i]; lr.Raw != fr.Raw || lr.None != fr.None {
@@ -617,7 +661,7 @@ func n10RunCase(c *n10Case) (out n10Out) {
 			if st.Op.K == "lock" && st.Op.Flag&0x08 != 0 && st.Op.T == 0 {
 				key = n10KeyProbable
 			}
-			fail(key, "step %d %v: reply relayed by the follower differs from the leader's own reply\n    via follower: %v\n    from leader : %v\n  same requests sent to a leader directly:\n    %s", i, *st.Op, fr, lr, strings.Join(llog, "\n    "))
+			fail(key, "step %d %v: reply relayed by the follower differs from the leader's own reply\n    via follower: %v\n    from leader : %v\n  same requests sent to a leader directly:\n    %s", i, *st.Op, fr, lr, strings.Join(llog, "\n    ")+"\n  leader of the follower-path cluster after the script:\n"+leaderAfterF+"  leader of the leader-path cluster now:\n"+n09DescribeState(n09Canon(e2.leader.inst.slock, false)))
 			return
 		}
 	}
@@ -627,9 +671,13 @@ func n10RunCase(c *n10Case) (out n10Out) {
 // ---------------------------------------------------------------------------------------------
 // generator
 
-func n10GenKV(t *rapid.T) []string {
+func n10GenKV(t *rapid.T, stall bool) []string {
 	k := rapid.SampledFrom([]string{"kv0", "kv1"}).Draw(t, "kvkey")
-	switch rapid.SampledFrom([]string{"SET", "SET", "GET", "GET", "DEL"}).Draw(t, "kvcmd") {
+	cmds := []string{"SET", "SET", "GET", "GET", "DEL"}
+	if stall {
+		cmds = []string{"SET", "SET", "DEL"}
+	}
+	switch rapid.SampledFrom(cmds).Draw(t, "kvcmd") {
 	case "SET":
 		return []string{"SET", k, rapid.StringMatching(`[a-z0-9]{1,12}`).Draw(t, "kvval")}
 	case "GET":
@@ -691,7 +739,7 @@ func n10GenCase(t *rapid.T, st *vStat) *n10Case {
 			c.Steps = append(c.Steps, n10Step{Op: n10GenOp(t, false, keys), Direct: true})
 		default:
 			if c.Text && rapid.IntRange(0, 4).Draw(t, "kv") == 2 {
-				c.Steps = append(c.Steps, n10Step{KV: n10GenKV(t)})
+				c.Steps = append(c.Steps, n10Step{KV: n10GenKV(t, c.Stall)})
 			} else {
 				c.Steps = append(c.Steps, n10Step{Op: n10GenOp(t, c.Text, keys)})
 			}
